@@ -625,6 +625,7 @@ def run(chk):
                     seen.add(s.stream)
                     chk.sample(dict(stream=s.stream, case=s.line()[:500], model=m[:400], impl=il[:400]), limit=8)
             race_stream(chk, binary)
+            identity_stream(chk, binary)
             try:
                 chk.cov["vm_compute_crosschecked"] = coq_crosscheck(chk, mls, mo)
             except Exception as ex:
@@ -652,6 +653,32 @@ def race_stream(chk, binary):
         elif int(m.group(2)) > 0:
             chk.monitor_fail("blocks-after-close", c, o, "%s of %s trials: a send that raced for the last free slot was still blocked 1 ms (virtual) after the close channel was closed (first: trial %s)" % (m.group(2), m.group(1), m.group(3)))
     chk.sample(dict(stream="simultaneous-producers-then-close", case=cases[0], impl=outs[0]), limit=9)
+
+
+def identity_stream(chk, binary):
+    """One producer, nobody consuming between the sends of a run: what arrives on C is compared BY IDENTITY and in order with
+    what was sent, for every kind of Task -- user tasks, callback tasks and the already-completed empty task handed to SendTask
+    (SendCallback(nil) / SendTask(nil) send nothing). Monitor only."""
+    rng = chk.rng.fork()
+    cases = []
+    for _ in range(60 if chk.tier == "quick" else 600):
+        n = rng.range(1, 12)
+        seq = [rng.choice(["e", "e", "h", "t", "h", "n", "z"]) for _ in range(n)]
+        cases.append("c09e size=%d seq=%s" % (rng.choice([1, 1, 2, 3, 8]), ",".join(seq)))
+    cases += ["c09e size=1 seq=e", "c09e size=2 seq=h,e,h", "c09e size=4 seq=e,e,t,e"]
+    outs = fttaskx.run(binary, cases)
+    for c, o in zip(cases, outs):
+        seq = c.split("seq=")[1].split(",")
+        chk.count_case("sent-tasks-by-identity", c, "e" in seq)
+        want = sum(1 for k in seq if k in "eht")
+        m = re.match(r"sent=(\d+) got=(\d+) match=(\S+)$", o)
+        if not m:
+            chk.monitor_fail("crash", c, o[:300], "identity scenario gave no result")
+        elif int(m.group(1)) != want or int(m.group(2)) != want or m.group(3) != "ok":
+            chk.monitor_fail("dropped-or-reordered", c, o, "one producer sent %d tasks (kinds %s; e = the empty task through SendTask), nobody else used the queue: "
+                             "%s arrived on the channel, first difference from the sent sequence (by identity) at position %s" % (
+                                 want, ",".join(seq), m.group(2), m.group(3)))
+    chk.sample(dict(stream="sent-tasks-by-identity", case=cases[0], impl=outs[0]), limit=9)
 
 
 def search(chk):
